@@ -498,7 +498,7 @@ func main() {
 	// many small programs rather than few large ones: the oracle evaluates the (quadratic) Lean definition
 	nProg, nCases := 3, 36
 	if lib.Thorough() {
-		nProg, nCases = 30, 24
+		nProg, nCases = 20, 24
 	}
 	for k := 0; k < nProg; k++ {
 		dir := lib.WorkDir(prop, fmt.Sprintf("mugo%d", k))
